@@ -42,6 +42,7 @@ def patch_tokens(name, mi):
         "func_simple": ["o", "ret"],
         "trail_label": ["o", "L:tl_%d" % mi],
         "trail_label_data": ["d:1", "L:tl_%d" % mi],
+        "string": ["d:3"],
         "alias_data": ["jmp:.Lskip", "L:t1_%d" % mi, "L:t2_%d" % mi, "d:1", "L:.Lskip", "o"],
     }
     if name.startswith("jmp:"):
